@@ -36,11 +36,13 @@ TECHNIQUE = "runtime monitoring: differential oracle between two observed reads 
 NUMPY_FN = ("reader.py", "read_data_section_iterative_numpy_engine")
 NORMAL_FN = ("reader.py", "read_data_section_iterative_normal_engine")
 _gen_calls = []
+_traced = [0]
 
 
 def setup(ctx):
     n = ctx.probe.trace([NUMPY_FN, NORMAL_FN])
     ctx.count("engine_functions_traced", n)
+    _traced[0] = 1 if (NUMPY_FN in ctx.probe.by_name and NORMAL_FN in ctx.probe.by_name) else 0
     # recorder on numpy.genfromtxt as seen from lasio.reader
     reader = __import__("lasio.reader", fromlist=["x"])
     real = reader.np.genfromtxt
@@ -171,7 +173,13 @@ def observe(ctx, text, engine):
     numpy_started = ("start", NUMPY_FN[1]) in trace
     numpy_returned = ("return", NUMPY_FN[1]) in trace
     normal_started = ("start", NORMAL_FN[1]) in trace
-    if engine == "numpy":
+    if engine == "numpy" and not _traced[0]:
+        # the engine functions could not be located (renamed by a refactoring): fall back to the
+        # numpy.genfromtxt recorder alone - returned normally exactly once = the fast path ran
+        path = "fast" if _gen_calls == ["returned"] else ("fallback" if "raised" in _gen_calls else "unknown:%s" % (_gen_calls,))
+    elif engine != "numpy" and not _traced[0]:
+        path = "normal"
+    elif engine == "numpy":
         if numpy_returned and not normal_started and _gen_calls == ["returned"]:
             path = "fast"
         elif numpy_started and normal_started:
